@@ -896,10 +896,21 @@ def delete_pointless_statements(source: str) -> str:
     underscore_is_read = any(
         core.walk(ast_tree, (ast.Name(id="_", ctx=ast.Load), ast.Attribute(attr="_")))
     )
+    # What is in the body of a try statement may be there for the exception that it raises
+    tried_nodes = {
+        id(node)
+        for try_node in core.walk(ast_tree, ast.Try)
+        for statement in try_node.body
+        for node in ast.walk(statement)
+    }
     for node in itertools.chain([ast_tree], parsing.iter_bodies_recursive(ast_tree)):
         for i, child in enumerate(node.body):
             if underscore_is_read and any(
                 core.walk(child, ast.Name(id="_", ctx=(ast.Store, ast.Del)))
+            ):
+                continue
+            if id(child) in tried_nodes and not core.match_template(
+                child, ast.Expr(value=ast.Constant)
             ):
                 continue
             if not core.has_side_effect(child, safe_callables):
